@@ -33,15 +33,44 @@ static int cmd_replay(int argc, char **argv) {
 	if (!rt::json_parse(ss.str(), j, err)) { fprintf(stderr, "replay: bad json: %s\n", err.c_str()); return 2; }
 	const rt::JVal *pj = j.get("plan") ? j.get("plan") : &j;
 	std::string prop = pj->str("property");
-	if (prop == "C11") return gen::c11_replay(*pj, arg_flag(argc, argv, "--trace"));
+	// "prelude": plans that ran earlier in the same process when the violation was found. A violation that needs them
+	// (library state that outlives the objects: a static, a thread_local) is replayed as the whole process history.
+	const rt::JVal *prelude = pj->get("prelude");
+	if (prop == "C11") {
+		if (prelude) for (auto &e : prelude->a) gen::c11_replay(e, false, true);
+		return gen::c11_replay(*pj, arg_flag(argc, argv, "--trace"), false);
+	}
 	ops::Plan plan;
 	if (!ops::plan_from_json(*pj, plan, err)) { fprintf(stderr, "replay: %s\n", err.c_str()); return 2; }
 	if (plan.fullmem_model) exec::enable_shipped_full_mem_model();
 	{ gen::Context wgc; wgc.property = plan.property; gen::init_context(wgc); exec::Options wopt; wopt.run_index = ~(uint64_t)0; exec::execute(gen::warmup_plan(wgc), wopt); }
+	if (prelude) for (auto &e : prelude->a) {
+		ops::Plan pp; std::string perr;
+		if (!ops::plan_from_json(e, pp, perr)) { fprintf(stderr, "replay: prelude: %s\n", perr.c_str()); return 2; }
+		exec::Options po; po.run_index = 0; po.replay = pp.replay;
+		exec::execute(pp, po);
+	}
 	exec::Options opt; opt.replay = true; opt.trace = arg_flag(argc, argv, "--trace");
 	exec::Report rep = exec::execute(plan, opt);
 	printf("%s\n", exec::report_to_json(rep, plan, arg_flag(argc, argv, "--with-plan")).c_str());
 	fflush(stdout);
+	return 0;
+}
+
+// prints the plan a worker generates for (property, tier, mode, seed, index) - the driver rebuilds the history of a
+// worker process from it
+static int cmd_genplan(int argc, char **argv) {
+	std::string prop = arg_s(argc, argv, "--property", "C03");
+	std::string tier = arg_s(argc, argv, "--tier", "quick");
+	std::string mode = arg_s(argc, argv, "--mode", "");
+	uint64_t seed = strtoull(arg_s(argc, argv, "--seed", "1"), nullptr, 10);
+	uint64_t idx = strtoull(arg_s(argc, argv, "--index", "0"), nullptr, 10);
+	uint64_t run_seed = rt::mix64(rt::mix_str(seed, prop.c_str()), idx);
+	if (prop == "C11") { printf("%s\n", gen::c11_genplan(run_seed, idx, tier, mode).c_str()); return 0; }
+	gen::Context gc; gc.property = prop; gc.tier = tier; gc.mode = mode;
+	gen::init_context(gc);
+	ops::Plan plan = gen::generate(gc, run_seed, idx);
+	printf("%s\n", ops::plan_to_json(plan).c_str());
 	return 0;
 }
 
@@ -110,6 +139,7 @@ int main(int argc, char **argv) {
 	int rc = 2;
 	if (cmd == "replay") rc = cmd_replay(argc, argv);
 	else if (cmd == "worker") rc = cmd_worker(argc, argv);
+	else if (cmd == "genplan") rc = cmd_genplan(argc, argv);
 	else if (cmd == "info") { printf("{\"config\":\"%s\",\"variant\":\"%s\",\"dataset_items\":%llu}\n", exec::config_name(), exec::variant_name(), (unsigned long long)exec::dataset_items()); rc = 0; }
 	fflush(stdout);
 	seam::tsan_ignore_end();
